@@ -498,85 +498,131 @@ func c12IdSkeleton() ([]string, error) {
 //     unconditional statement of a deferred function literal — and Eval contains no `m.Unlock()`
 //     that is not deferred.
 
-type c12Access struct {
-	where   string
-	guarded bool
+type c12Fact struct{ what, kind string }
+
+// c12Between classifies the statements between m.Lock() and the defer that releases m:
+// logging to MutexLog, operations on the table lock, writes of a table entry and other defers
+// cannot leave the function ("ok"); a return / branch / loop / goto can ("bad"); any other call
+// might panic or is not understood ("unknown").
+func c12Between(list []ast.Stmt) string {
+	res := "ok"
+	for _, s := range list {
+		switch x := s.(type) {
+		case *ast.DeferStmt, *ast.EmptyStmt:
+		case *ast.ExprStmt:
+			c, ok := x.X.(*ast.CallExpr)
+			if !ok {
+				res = "unknown"
+				continue
+			}
+			sel, ok := c.Fun.(*ast.SelectorExpr)
+			if ok && c12SelTail(sel.X) == "MutexLog" && sel.Sel.Name == "Add" {
+				continue
+			}
+			if ok && c12SelTail(sel.X) == "MutexesMutex" && (sel.Sel.Name == "Lock" || sel.Sel.Name == "Unlock") {
+				continue
+			}
+			res = "unknown"
+		case *ast.AssignStmt:
+			okAssign := len(x.Lhs) == 1
+			if okAssign {
+				ix, isIx := x.Lhs[0].(*ast.IndexExpr)
+				okAssign = isIx && (c12SelTail(ix.X) == "Mutexes" || c12SelTail(ix.X) == "MutexeOwners")
+			}
+			if !okAssign {
+				res = "unknown"
+			}
+		case *ast.ReturnStmt, *ast.BranchStmt, *ast.IfStmt, *ast.ForStmt, *ast.RangeStmt, *ast.SwitchStmt, *ast.GoStmt:
+			return "bad"
+		default:
+			res = "unknown"
+		}
+	}
+	return res
 }
 
-// c12ScanFunc walks one function body in source order, tracking whether MutexesMutex is held.
-func c12ScanFunc(name string, body *ast.BlockStmt, out *[]c12Access) {
-	held := false
-	lits := 0
-	var visit func(n ast.Node) bool
-	visit = func(n ast.Node) bool {
-		switch x := n.(type) {
-		case *ast.FuncLit:
-			lits++
-			c12ScanFunc(fmt.Sprintf("%s.func%d", name, lits), x.Body, out)
-			return false
-		case *ast.DeferStmt:
-			if sel, ok := x.Call.Fun.(*ast.SelectorExpr); ok && c12SelTail(sel.X) == "MutexesMutex" {
-				// deferred Unlock: the lock stays held to the end of the function
-				return false
-			}
-		case *ast.CallExpr:
-			if sel, ok := x.Fun.(*ast.SelectorExpr); ok && c12SelTail(sel.X) == "MutexesMutex" {
-				switch sel.Sel.Name {
-				case "Lock":
-					held = true
-				case "Unlock":
-					held = false
-				}
-				return false
-			}
-		case *ast.IndexExpr:
-			if t := c12SelTail(x.X); t == "Mutexes" || t == "MutexeOwners" {
-				*out = append(*out, c12Access{name + ":" + t, held})
+// c12OrderFacts derives, from the skeleton, the orders the model's events rely on (three-valued).
+func c12OrderFacts(sk []string) []c12Fact {
+	tv := func(known, v bool) string {
+		if !known {
+			return "unknown"
+		}
+		if v {
+			return "true"
+		}
+		return "false"
+	}
+	idx := func(seq []string, pred func(string) bool) int {
+		for i, t := range seq {
+			if pred(t) {
+				return i
 			}
 		}
-		return true
+		return -1
 	}
-	ast.Inspect(body, visit)
-}
-
-func c12TableAccesses() ([]c12Access, error) {
-	dir := filepath.Join(repoDir(), "interpreter")
-	files, err := filepath.Glob(filepath.Join(dir, "*.go"))
-	if err != nil {
-		return nil, err
+	isSec := func(t string) bool { return strings.HasPrefix(t, "T[") }
+	secWith := func(sub string) func(string) bool {
+		return func(t string) bool { return isSec(t) && strings.Contains(t, sub) }
 	}
-	sort.Strings(files)
-	var out []c12Access
-	fset := token.NewFileSet()
-	for _, fn := range files {
-		if strings.HasSuffix(fn, "_test.go") {
+	is := func(x string) func(string) bool { return func(t string) bool { return t == x } }
+	var out []c12Fact
+	// 1. the named mutex is locked before the thread registers itself as the owner
+	l, so := idx(sk, is("M.Lock")), idx(sk, secWith("set O[N]=tid"))
+	out = append(out, c12Fact{"M.Lock before O[N]=tid", tv(l >= 0 && so >= 0, l < so)})
+	// 2. the owner is reset before the named mutex is unlocked — in EXECUTION order of the
+	// deferred calls (stacked defers run last-in-first-out)
+	var groups [][]string
+	for i := 0; i < len(sk); i++ {
+		if sk[i] == "defer" {
+			var g []string
+			for i++; i < len(sk) && sk[i] != "end"; i++ {
+				g = append(g, sk[i])
+			}
+			groups = append(groups, g)
+		}
+	}
+	var runtimeSeq []string
+	for i := len(groups) - 1; i >= 0; i-- {
+		runtimeSeq = append(runtimeSeq, groups[i]...)
+	}
+	r0, ul := idx(runtimeSeq, secWith("set O[N]=0")), idx(runtimeSeq, is("M.Unlock"))
+	out = append(out, c12Fact{"O[N]=0 before M.Unlock in the deferred release", tv(r0 >= 0 && ul >= 0, r0 < ul)})
+	// 3. an entry of the mutex table is written only when the name has none yet
+	known, okc := false, true
+	for _, t := range sk {
+		if !isSec(t) {
+			if strings.Contains(t, "set M[") {
+				known, okc = true, false // written outside a table section
+			}
 			continue
 		}
-		f, err := parser.ParseFile(fset, fn, nil, 0)
-		if err != nil {
-			return nil, err
-		}
-		for _, d := range f.Decls {
-			if fd, ok := d.(*ast.FuncDecl); ok && fd.Body != nil {
-				name := fd.Name.Name
-				if fd.Recv != nil && len(fd.Recv.List) == 1 {
-					t := fd.Recv.List[0].Type
-					if st, ok := t.(*ast.StarExpr); ok {
-						t = st.X
-					}
-					if id, ok := t.(*ast.Ident); ok {
-						name = id.Name + "." + name
-					}
+		for _, item := range strings.Split(strings.TrimSuffix(strings.TrimPrefix(t, "T["), "]"), ",") {
+			if strings.Contains(item, "set M[") {
+				known = true
+				if !strings.HasPrefix(item, "if !foundM{") {
+					okc = false
 				}
-				c12ScanFunc(name, fd.Body, &out)
 			}
 		}
 	}
-	return out, nil
+	out = append(out, c12Fact{"M[N] written only when absent", tv(known, okc)})
+	// 4. blocking operations are outside the table sections
+	bl, bd := idx(sk, is("M.Lock")), idx(sk, is("body"))
+	inside := idx(sk, func(t string) bool {
+		return (isSec(t) && (strings.Contains(t, "M.Lock") || strings.Contains(t, "body") || strings.Contains(t, "M.Unlock"))) ||
+			t == "T.Lock-without-Unlock" || t == "T.Unlock-without-Lock"
+	})
+	switch {
+	case inside >= 0:
+		out = append(out, c12Fact{"M.Lock, M.Unlock and the body outside MutexesMutex sections", "false"})
+	default:
+		out = append(out, c12Fact{"M.Lock, M.Unlock and the body outside MutexesMutex sections", tv(bl >= 0 && bd >= 0, true)})
+	}
+	return out
 }
 
 // c12ReleaseDeferred evaluates fact 2; the strings describe each m.Lock() found.
-func c12ReleaseDeferred() ([]c12Access, error) {
+func c12ReleaseDeferred() ([]c12Fact, error) {
 	fset := token.NewFileSet()
 	path := filepath.Join(repoDir(), "interpreter", "rt_statements.go")
 	f, err := parser.ParseFile(fset, path, nil, 0)
@@ -607,33 +653,36 @@ func c12ReleaseDeferred() ([]c12Access, error) {
 		}
 		return c12LocalCall(c, method)
 	}
-	var out []c12Access
+	var out []c12Fact
 	var lists func(list []ast.Stmt)
 	var nested func(s ast.Stmt)
 	lists = func(list []ast.Stmt) {
 		for i, s := range list {
 			if m := localCall(s, "Lock"); m != "" {
-				ok := false
-				for _, later := range list[i+1:] {
+				kind := "bad"
+				for j, later := range list[i+1:] {
 					ds, isDefer := later.(*ast.DeferStmt)
 					if !isDefer {
 						continue
 					}
-					if c12LocalCall(ds.Call, "Unlock") == m {
-						ok = true
-					}
+					found := c12LocalCall(ds.Call, "Unlock") == m
 					if fl, isLit := ds.Call.Fun.(*ast.FuncLit); isLit {
 						for _, inner := range fl.Body.List {
 							if localCall(inner, "Unlock") == m {
-								ok = true
+								found = true
 							}
 						}
 					}
+					if found {
+						// nothing that can leave the function may lie between the Lock and this defer
+						kind = c12Between(list[i+1 : i+1+j])
+						break
+					}
 				}
-				out = append(out, c12Access{"Lock of local mutex has deferred unconditional Unlock", ok})
+				out = append(out, c12Fact{"Lock of local mutex: deferred unconditional Unlock follows, nothing can fail in between", kind})
 			}
 			if m := localCall(s, "Unlock"); m != "" {
-				out = append(out, c12Access{"Unlock of local mutex outside a defer", false})
+				out = append(out, c12Fact{"Unlock of local mutex outside a defer", "bad"})
 			}
 			nested(s)
 		}
@@ -664,7 +713,7 @@ func c12ReleaseDeferred() ([]c12Access, error) {
 	}
 	lists(eval.Body.List)
 	if len(out) == 0 {
-		out = append(out, c12Access{"no Lock of a local mutex found in Eval", false})
+		out = append(out, c12Fact{"no Lock of a local mutex found in Eval", "unknown"})
 	}
 	return out, nil
 }
@@ -816,19 +865,19 @@ func c12CounterWrites() ([][2]string, error) {
 	return out, nil
 }
 
-func c12WriteFacts(sb *strings.Builder, name, doc string, xs []c12Access, err error) {
+func c12WriteFacts(sb *strings.Builder, name, doc string, xs []c12Fact, err error) {
 	if err != nil {
 		fmt.Fprintln(os.Stderr, err)
-		xs = []c12Access{{"extraction failed", false}}
+		xs = []c12Fact{{"extraction failed", "unknown"}}
 	}
 	sb.WriteString("/-- " + doc + " -/\n")
-	sb.WriteString("def " + name + " : List (String × Bool) := [\n")
+	sb.WriteString("def " + name + " : List (String × String) := [\n")
 	for i, a := range xs {
 		sep := ","
 		if i == len(xs)-1 {
 			sep = ""
 		}
-		sb.WriteString(fmt.Sprintf("  (%q, %v)%s\n", a.where, a.guarded, sep))
+		sb.WriteString(fmt.Sprintf("  (%q, %q)%s\n", a.what, a.kind, sep))
 	}
 	sb.WriteString("]\n\n")
 }
@@ -869,10 +918,15 @@ func c12Tool(args []string) int {
 		sb.WriteString(fmt.Sprintf("%q", s))
 	}
 	sb.WriteString("]\n\n")
-	acc, err := c12TableAccesses()
-	c12WriteFacts(&sb, "tableAccesses", "every access to erp.Mutexes / erp.MutexeOwners in package interpreter: (function:table, MutexesMutex held there)", acc, err)
+	tu, err := c12TableUses()
+	var tuf []c12Fact
+	for _, u := range tu {
+		tuf = append(tuf, c12Fact{u.where, u.kind})
+	}
+	c12WriteFacts(&sb, "tableUses", "every use of the selectors Mutexes / MutexeOwners (and of their aliases) in the whole tree: (where, guarded|unguarded|unknown)", tuf, err)
+	c12WriteFacts(&sb, "orderFacts", "orders and section boundaries read off the skeleton of mutexRuntime.Eval: (what, true|false|unknown)", c12OrderFacts(sk), nil)
 	rel, err := c12ReleaseDeferred()
-	c12WriteFacts(&sb, "releases", "every Lock / non-deferred Unlock of a local mutex value in mutexRuntime.Eval: (what, acceptable)", rel, err)
+	c12WriteFacts(&sb, "releases", "every Lock / non-deferred Unlock of a local mutex value in mutexRuntime.Eval: (what, ok|bad|unknown)", rel, err)
 	cw, err := c12CounterWrites()
 	if err != nil {
 		fmt.Fprintln(os.Stderr, err)
@@ -887,6 +941,12 @@ func c12Tool(args []string) int {
 		sb.WriteString(fmt.Sprintf("(%q, %q)", w[0], w[1]))
 	}
 	sb.WriteString("]\n\n")
+	sb.WriteString("/-- the value the pool's constructor gives the id counter (none = cannot tell) -/\n")
+	if v := c12CounterInit(); v >= 0 {
+		sb.WriteString(fmt.Sprintf("def idCounterInit : Option Nat := some %d\n\n", v))
+	} else {
+		sb.WriteString("def idCounterInit : Option Nat := none\n\n")
+	}
 	sb.WriteString("end Ecal.Gen.C12\n")
 	if len(args) > 1 {
 		if err := os.WriteFile(args[1], []byte(sb.String()), 0644); err != nil {
